@@ -31,6 +31,7 @@ pub fn c05_slice_form_child_key_injective() {
     vcover!(same && a1.len() == 2, "c05.slice: equal tuples");
     assert!((ha == hb) == same, "C05 two requests address the same child exactly when their label values are equal position by position");
     std::mem::forget(v);
+    vcover!(true, "end of harness reached");
 }
 
 /// Map form: same key as the slice form for the same values, independent of insertion order.
@@ -65,6 +66,7 @@ pub fn c05_map_form_matches_slice_form() {
     std::mem::forget(ma);
     std::mem::forget(mb);
     std::mem::forget(v);
+    vcover!(true, "end of harness reached");
 }
 
 /// Wrong number of values (0, 1 or 3 for 2 declared labels) is refused by the key function that
@@ -81,6 +83,7 @@ pub fn c05_wrong_cardinality_is_an_error() {
     assert!(v.v.hash_label_values(&vals[..3]).is_err(), "C05 wrong number of label values is an error");
     assert!(v.v.hash_label_values(&vals[..2]).is_ok());
     std::mem::forget(v);
+    vcover!(true, "end of harness reached");
 }
 
 /// Map form with a wrong name (right cardinality), a missing name or too many names is refused
@@ -108,6 +111,7 @@ pub fn c05_wrong_names_are_an_error() {
     std::mem::forget((r, r1, r3));
     std::mem::forget((m, m1, m3));
     std::mem::forget(v);
+    vcover!(true, "end of harness reached");
 }
 
 pub fn dispatch(name: &str) -> Option<fn()> {
